@@ -4,6 +4,7 @@ import (
 	"bytes"
 	"fmt"
 	"sort"
+	"strings"
 	"testing"
 	"time"
 
@@ -590,4 +591,132 @@ func c10ReadABC(c *column.Collection, obs *c10Obs) {
 			c10CheckRow(idx, a, okA, b, okB, cc, okC, obs)
 		})
 	})
+}
+
+// TestC13Big: a snapshot whose state AND whose log tail are larger than the 1 MiB block of the s2
+// stream (33 000 rows with 80-byte strings; while the snapshot is in progress one transaction
+// re-writes the string of every row: three commits of ~1.4 MiB each). The file is cut at every s2
+// frame boundary +-2, at the state/log junction +-2 and at a few other places. Restore of a prefix
+// must fail or give a state at a commit boundary: every block holds either all old or all new
+// strings, and the blocks with new strings are a prefix of the commit order.
+func TestC13Big(t *testing.T) {
+	rapid.Check(t, func(t *rapid.T) {
+		c13Big(t, rapid.IntRange(32770, 36000).Draw(t, "rows"), rapid.IntRange(66, 140).Draw(t, "string-bytes"))
+	})
+}
+
+func c13Big(t *rapid.T, n, width int) {
+	mk := func() *column.Collection {
+		c := column.NewCollection(column.Options{Capacity: 1024, Vacuum: 24 * 3600 * 1e9})
+		c.CreateColumn("n", column.ForInt())
+		c.CreateColumn("s", column.ForString())
+		return c
+	}
+	c := mk()
+	defer c.Close()
+	// incompressible per-row strings, so that the compressed file spans several 1 MiB blocks too
+	text := func(i int, salt uint64) string {
+		var b strings.Builder
+		x := uint64(i)*0x9E3779B97F4A7C15 + salt
+		for b.Len() < width {
+			x ^= x << 13
+			x ^= x >> 7
+			x ^= x << 17
+			fmt.Fprintf(&b, "%016x", x)
+		}
+		return b.String()[:width]
+	}
+	old, fresh := func(i int) string { return text(i, 1) }, func(i int) string { return text(i, 2) }
+	c.Query(func(txn *column.Txn) error {
+		for i := 0; i < n; i++ {
+			txn.Insert(func(r column.Row) error { r.SetInt("n", i); r.SetString("s", old(i)); return nil })
+		}
+		return nil
+	})
+	fired := false
+	column.SetVerifHook(func(point string, block uint32) {
+		if point == "snapshot:pre-close" && !fired {
+			fired = true
+			c.Query(func(txn *column.Txn) error {
+				s := txn.String("s")
+				return txn.Range(func(idx uint32) { s.Set(fresh(int(idx))) })
+			})
+		}
+	})
+	var buf bytes.Buffer
+	err := c.Snapshot(&buf)
+	column.SetVerifHook(nil)
+	if err != nil || !fired {
+		t.Fatalf("Snapshot: %v (tail transaction ran: %v)", err, fired)
+	}
+	data := buf.Bytes()
+	frames, streams := s2Frames(data)
+	junction := len(data)
+	if len(streams) >= 2 {
+		junction = streams[1]
+	}
+	cuts := map[int]bool{0: true, len(data): true, len(data) - 1: true}
+	for _, f := range append(frames, junction) {
+		for d := -2; d <= 2; d++ {
+			if f+d >= 0 && f+d <= len(data) {
+				cuts[f+d] = true
+			}
+		}
+	}
+	for i := 1; i < 12; i++ {
+		cuts[len(data)*i/12] = true
+	}
+	restoredNil, tailCuts := 0, 0
+	for cut := range cuts {
+		d := mk()
+		rerr, bad := guarded(func() error { return d.Restore(bytes.NewReader(data[:cut])) })
+		if bad != "" {
+			d.Close()
+			t.Fatalf("C13 violated: Restore of the first %d of %d bytes (state/log junction at %d): %s", cut, len(data), junction, bad)
+		}
+		if rerr != nil {
+			d.Close()
+			continue
+		}
+		restoredNil++
+		if cut > junction {
+			tailCuts++
+		}
+		// every block all-old or all-new; new blocks form a prefix 0..k-1 of the commit order
+		newBlocks := map[uint32]int{}
+		rows := map[uint32]int{}
+		msg := ""
+		d.Query(func(txn *column.Txn) error {
+			s, nn := txn.String("s"), txn.Int("n")
+			return txn.Range(func(idx uint32) {
+				v, ok := s.Get()
+				id, okN := nn.Get()
+				rows[idx>>14]++
+				switch {
+				case msg != "":
+				case !ok || !okN || id != int(idx) || (v != old(int(idx)) && v != fresh(int(idx))):
+					msg = fmt.Sprintf("row %d reads n=%d/%v s=%q/%v", idx, id, okN, v, ok)
+				case v == fresh(int(idx)):
+					newBlocks[idx>>14]++
+				}
+			})
+		})
+		if msg == "" && d.Count() != n {
+			msg = fmt.Sprintf("Count()=%d, the snapshotted collection had %d rows", d.Count(), n)
+		}
+		for b := uint32(0); b < 3 && msg == ""; b++ {
+			if newBlocks[b] != 0 && newBlocks[b] != rows[b] {
+				msg = fmt.Sprintf("block %d holds %d rows with the new string and %d with the old one: part of a commit was applied", b, newBlocks[b], rows[b]-newBlocks[b])
+			}
+			if b > 0 && newBlocks[b] != 0 && newBlocks[b-1] == 0 {
+				msg = fmt.Sprintf("block %d has the new strings but block %d (committed before it) has not: not a prefix of the logged commits", b, b-1)
+			}
+		}
+		d.Close()
+		if msg != "" {
+			t.Fatalf("C13 violated: Restore of the first %d of %d bytes (state/log junction at %d) returned nil, but %s", cut, len(data), junction, msg)
+		}
+	}
+	RecordCase("C13", fmt.Sprintf("big snapshot: %d bytes, junction %d, %d s2 frames, %d cuts, %d restored without error (%d inside the log tail)", len(data), junction, len(frames), len(cuts), restoredNil, tailCuts), tailCuts > 0 || restoredNil > 1, "state-and-log-tail-over-1MiB")
+	AddCounter("C13", "big_snapshot_cuts", int64(len(cuts)))
 }
